@@ -30,6 +30,11 @@ pub enum AdsrOp {
     /// set the time of phase `dst` (0 attack, 1 decay, 2 release) to the time currently configured for phase `src`
     /// changed by the relative amount `rel` (tiny nudges: two almost-equal times used one after the other)
     NudgeTime { dst: u8, src: u8, rel: f32 },
+    /// n times: gate_on, `ticks` ticks, gate_off, `ticks` ticks (many notes in a row)
+    GateBurst { n: u16, ticks: u8 },
+    /// turn the time of the phase that is running right now down to `frac` samples (clamped to the 1 ms minimum by the
+    /// envelope), so that it ends within the next tick(s) wherever it currently is
+    CutShort(f32),
 }
 
 #[derive(Debug, Clone, Serialize, Deserialize, PartialEq)]
@@ -600,6 +605,29 @@ impl<'a> Sim<'a> {
             AdsrOp::SetDecay(t) => self.set_decay(*t),
             AdsrOp::SetRelease(t) => self.set_release(*t),
             AdsrOp::SetSustain(s) => self.set_sustain(*s),
+            AdsrOp::CutShort(frac) => {
+                let st = self.adsr.verif_state();
+                if timed(st) {
+                    self.stats.count("label.running_phase_cut_short", 1);
+                    let t = (*frac as f64 / self.fs) as f32;
+                    self.set_time_of(st, t)
+                } else {
+                    Ok(())
+                }
+            }
+            AdsrOp::GateBurst { n, ticks } => {
+                self.stats.count("label.gate_burst", 1);
+                for _ in 0..*n {
+                    if self.budget_left() == 0 {
+                        break;
+                    }
+                    self.gate_on()?;
+                    self.tick_n(*ticks as u64)?;
+                    self.gate_off()?;
+                    self.tick_n(*ticks as u64)?;
+                }
+                Ok(())
+            }
             AdsrOp::NudgeTime { dst, src, rel } => {
                 let base = [self.att, self.dec, self.rel][(*src % 3) as usize];
                 let t = (base as f64 * (1.0 + *rel as f64)) as f32;
